@@ -56,6 +56,7 @@ INT, BOOL, STR, NONE = "int", "bool", "str", "none"
 COLOR, KIND, MTYPE, PIECE, MOVE, POS, SC, REASON, DELTA = ("Color", "Kind", "MoveType", "Piece", "Move", "Position",
                                                            "StoneCounts", "WinReason", "delta")
 CONFIG, CHAR = "Config", "char"
+FLOAT, TREE, CHILD, PROBS, ENGINE, SPCFG, TRANSCRIPT = "float", "tree", "child", "probs", "engine", "spcfg", "Transcript"
 
 
 def CLS(name):
@@ -76,7 +77,9 @@ def O(t):
 
 
 COQ_BASE = {INT: "Z", BOOL: "bool", STR: "string", COLOR: "color", KIND: "kind", MTYPE: "mtype", PIECE: "piece",
-            MOVE: "mv", POS: "position", SC: "stonecounts", REASON: "reason", DELTA: "delta", CONFIG: "config", CHAR: "Z"}
+            MOVE: "mv", POS: "position", SC: "stonecounts", REASON: "reason", DELTA: "delta", CONFIG: "config", CHAR: "Z",
+            FLOAT: "Q", TREE: "otree", CHILD: "mv * position", PROBS: "oprobs", ENGINE: "engine", SPCFG: "sp_config",
+            TRANSCRIPT: "transcript"}
 
 
 def coq_type(t, top=True):
@@ -85,13 +88,15 @@ def coq_type(t, top=True):
     if isinstance(t, str):
         if t not in COQ_BASE:
             raise Untranslatable(f"no Coq type for {t}")
-        return COQ_BASE[t]
+        return COQ_BASE[t] if top or " " not in COQ_BASE[t] else f"({COQ_BASE[t]})"
     if t[0] == "list":
         s = "list " + coq_type(t[1], False)
     elif t[0] == "opt":
         s = "option " + coq_type(t[1], False)
     elif t[0] == "tuple":
         s = " * ".join(coq_type(x, False) for x in t[1:])
+    elif t[0] in ("dict", "dictc"):
+        s = f"list ({coq_type(t[1], False)} * {coq_type(t[2], False)})"
     else:
         raise Untranslatable(f"no Coq type for {t}")
     return s if top else f"({s})"
@@ -205,7 +210,8 @@ mkPiece mkMove mkPos mkSC mkDelta pcolor pkind size ply board wstones wcaps bsto
 color_eqb kind_eqb mtype_eqb reason_eqb zlen zsum upd sq getz updz has_road config mkCfg csize cpieces ccaps fuel fuel'
 mk_position py_tuple2_update py_try py_unpack2 py_unpack3 py_list_repeat py_str_int py_int_str py_isdigit py_isascii
 py_join py_split1 pystr ch pystr_eqb rev concat repeat py_uncons pair_eqb list_eqb py_opt_append
-py_int_sqrt_float py_tuple2_of_list
+py_int_sqrt_float py_tuple2_of_list py_mapM otree oprobs engine transcript sp_config answer Q
+engine_analyze engine_tree_probs child_move child_position py_fdiv_int py_fabs py_fge tr_new py_zeros2 inject_Z py_enumerate py_dict_get_last mv_eqb
 Ok Illegal Crash ret bind embed res_map len py_index py_getitem py_setitem py_bound py_slice truthy_list py_range
 py_range2 py_sum py_iter_opt py_tuple2_get py_tuple2_list py_dict_get pos_stones sc_stones sc_caps py_getattr_sc
 sc_evolve delta_empty set_d_ply set_d_stones set_d_board d_ply d_stones d_board evolve_position
@@ -225,7 +231,7 @@ ENUMS = {  # python enum -> (module, coq type tag, {member: coq constructor})
                                   "SLIDE_RIGHT": "SlideRight", "SLIDE_UP": "SlideUp", "SLIDE_DOWN": "SlideDown"}),
     "WinReason": ("game", REASON, {"ROAD": "Road", "FLATS": "Flats"}),
 }
-EQB = {CHAR: "Z.eqb", INT: "Z.eqb", COLOR: "color_eqb", KIND: "kind_eqb", MTYPE: "mtype_eqb", REASON: "reason_eqb", STR: "String.eqb"}
+EQB = {MOVE: "mv_eqb", CHAR: "Z.eqb", INT: "Z.eqb", COLOR: "color_eqb", KIND: "kind_eqb", MTYPE: "mtype_eqb", REASON: "reason_eqb", STR: "String.eqb"}
 
 def eqb_term(t):
     if t == BOOL:
@@ -246,11 +252,22 @@ ATTRS = {
     (PIECE, "color"): ("pcolor", COLOR), (PIECE, "kind"): ("pkind", KIND),
     (SC, "stones"): ("sc_stones", INT), (SC, "caps"): ("sc_caps", INT),
     (CONFIG, "size"): ("csize", INT), (CONFIG, "pieces"): ("cpieces", O(INT)), (CONFIG, "capstones"): ("ccaps", O(INT)),
+    # self_play.py: the search tree as far as play_one_game reads it (an oracle answer), the config, the transcript
+    (TREE, "children"): ("ot_children", L(CHILD)), (TREE, "value"): ("ot_value", FLOAT),
+    (TREE, "simulations"): ("ot_sims", INT), (TREE, "v_zero"): ("ot_vzero", FLOAT),
+    (CHILD, "move"): ("child_move", MOVE), (CHILD, "position"): ("child_position", POS),
+    (SPCFG, "size"): ("sp_size", INT), (SPCFG, "resignation_threshold"): ("sp_threshold", FLOAT),
+    (SPCFG, "ply_limit"): ("sp_ply_limit", INT),
+    (TRANSCRIPT, "positions"): ("t_positions", L(POS)), (TRANSCRIPT, "moves"): ("t_moves", L(L(MOVE))),
+    (TRANSCRIPT, "probs"): ("t_probs", L(L(FLOAT))), (TRANSCRIPT, "values"): ("t_values", L(FLOAT)),
+    (TRANSCRIPT, "result"): ("t_result", O(COLOR)),
 }
+TRANSCRIPT_SETTERS = {"positions": "tr_set_positions", "moves": "tr_set_moves", "probs": "tr_set_probs",
+                      "values": "tr_set_values", "result": "tr_set_result"}
 # properties (attribute syntax, function semantics) and class-level constants read through an instance
 PROPS = {(CONFIG, "flat_count"): "Config.flat_count", (CONFIG, "capstone_count"): "Config.capstone_count"}
 INSTANCE_CONSTS = {(CONFIG, "DEFAULT_PIECES"): "Config.DEFAULT_PIECES", (CONFIG, "DEFAULT_CAPS"): "Config.DEFAULT_CAPS"}
-MODULE_ALIASES = ("pieces", "moves", "game", "tak")    # tak/__init__.py star-imports the three (pinned)
+MODULE_ALIASES = ("pieces", "moves", "game", "tak", "encoding")    # tak/__init__.py star-imports the three (pinned)
 
 # (module, qualified name, coq name, parameter types by position, result type, extra leading parameters)
 # result DELTA + no return statement = the function's effect on its dict parameter
@@ -274,6 +291,7 @@ TARGETS = [
     ("game", "Config.flat_count", "flat_count", [CONFIG], INT, []),
     ("game", "Config.capstone_count", "capstone_count", [CONFIG], INT, []),
     ("game", "Position.from_squares", "from_squares", [CLS("Position"), CONFIG, L(L(PIECE)), INT], POS, []),
+    ("game", "Position.from_config", "from_config", [CLS("Position"), CONFIG], POS, []),
 ]
 METHODS = {  # (receiver type, method) -> qualified name
     (COLOR, "flip"): "Color.flip", (MTYPE, "is_slide"): "MoveType.is_slide", (MTYPE, "direction"): "MoveType.direction",
@@ -291,6 +309,8 @@ PINNED = {
     ("pieces", "Piece._init_cache"): "def _init_cache(cls):\n    for c in Color:\n        for k in Kind:\n"
                                      "            _piece_cache[c.value][k.value] = cls(c, k)",
 }
+# self_play.play_one_game: the hand-over of the engine statistics is bookkeeping outside every property: not translated
+SKIPPED_STATEMENTS = {"log.stats = engine.stats", "engine.stats = mcts.Stats()"}
 PINNED_INIT = "from .game import *\nfrom .moves import *\nfrom .pieces import *"
 PINNED_FIELDS = {  # attrs classes: field names in order
     ("game", "Config"): ["size", "pieces", "capstones"],
@@ -427,11 +447,17 @@ def show(t, ind, mon):
 class Env:
     """ordered map python local -> (coq name, type, fresh?)"""
 
-    def __init__(self, items=None):
+    def __init__(self, items=None, narrow=None):
         self.d = dict(items or {})
+        self.narrow = dict(narrow or {})    # ast.dump of an Optional-valued expression known to be not None -> (coq, type)
 
     def copy(self):
-        return Env(self.d)
+        return Env(self.d, self.narrow)
+
+    def narrowed(self, dump, coq, ty):
+        e = Env(self.d, self.narrow)
+        e.narrow[dump] = (coq, ty)
+        return e
 
     def has(self, n):
         return n in self.d
@@ -440,7 +466,7 @@ class Env:
         return self.d[n]
 
     def set(self, n, coq, ty, fresh=False):
-        e = Env(self.d)
+        e = Env(self.d, self.narrow)
         e.d[n] = (coq, ty, fresh)
         return e
 
@@ -460,6 +486,7 @@ class Fn:
         self.branch_depth = 0
         self.locals = set()
         self.body = None       # the FunctionDef being translated
+        self.name_alias = {}   # np_view -> logits (a numpy view of a tensor: the same storage)
 
     def temp(self):
         self.ntemp += 1
@@ -484,7 +511,10 @@ class Translator:
         self.str_codepoints = False   # tps.py: str = list of code points; game.py: the two slot names are Coq strings
         self.illegal = "IllegalMove"  # the module's own refusal exception -> `Illegal`
         self.tensor_mode = False      # encoding.decode: a torch tensor of ints is the list of its entries
+        self.oracle_mode = False      # self_play.py: the engine is a stream of answers
         self.while_fuel = {}
+        self.cur_alias = {}
+        self.cur_file = "GameGen"
         self.coq_names = set()
 
     # ------------------------------------------------------------------ source lookup
@@ -626,6 +656,8 @@ class Translator:
             return ("config_ctor",)
         if len(parts) == 2 and ".".join(parts) in self.funcs and self.funcs[".".join(parts)].get("classmethod"):
             return ("classmethod", ".".join(parts))
+        if len(parts) == 1 and len(self.dotted(e)) == 2 and parts[0] in self.funcs and "." not in parts[0]:
+            return ("classmethod", parts[0])       # module.function(...)
         if parts == ["ALL_SLIDES"]:
             return ("all_slides",)
         if parts == ["DIRECTIONS"]:
@@ -647,9 +679,13 @@ class Translator:
         return self.coerce(v, want, e) if want is not None else v
 
     def coerce(self, v, want, node):
-        """value of type v.ty where `want` is expected (only None / T -> Optional[T])"""
+        """value of type v.ty where `want` is expected (None / T -> Optional[T]; int -> float)"""
         if want is None or v.comp:
             return v
+        if want == FLOAT and v.ty == INT:
+            return V(v.pre, app("inject_Z", v.term), FLOAT)
+        if want == L(FLOAT) and v.ty == L(INT):
+            return V(v.pre, app("map", "inject_Z", v.term), L(FLOAT), False, v.fresh)
         if isinstance(want, tuple) and want[0] == "opt":
             if v.ty == NONE:
                 return V(v.pre, "None", want)
@@ -674,6 +710,9 @@ class Translator:
                 return V([], "true" if c else "false", BOOL)
             if type(c) is int:
                 return V([], zlit(c), INT)
+            if type(c) is float:
+                a, b = c.as_integer_ratio()
+                return V([], f"({a} # {b})%Q", FLOAT)
             if type(c) is str:
                 if '"' in c or "\\" in c or not c.isascii() or not all(32 <= ord(x) < 127 for x in c):
                     fail(e, "string literal")
@@ -681,12 +720,18 @@ class Translator:
                     return V([], f'pystr "{c}"', L(CHAR), False, False, c)
                 return V([], f'"{c}"%string', STR)
             fail(e, "constant")
+        if isinstance(e, ast.Name) and e.id in fn.name_alias and env.has(fn.name_alias[e.id]):
+            coq, ty, fresh = env.get(fn.name_alias[e.id])
+            return V([], coq, ty, False, False)
         if isinstance(e, ast.Name):
             if env.has(e.id):
                 coq, ty, fresh = env.get(e.id)
                 return V([], coq, ty, False, False)
             return self.global_value(fn, e, env)
         if isinstance(e, ast.Attribute):
+            if ast.dump(e) in env.narrow:
+                coq, ty = env.narrow[ast.dump(e)]
+                return V([], coq, ty)
             cc = self.const_chain(e, env)
             if cc is not None:
                 return self.global_value(fn, e, env)
@@ -720,9 +765,23 @@ class Translator:
             it = self.iterable(fn, g.iter, env)
             pat, env2 = self.bind_target(g.target, it.ty[1], env, fn)
             body = self.expr(fn, e.elt, env2)
-            if body.comp or body.pre:
-                fail(e, "comprehension whose element can raise")
-            return V(it.pre, app("map", f"(fun {pat} => {body.term})", it.term), L(body.ty), False, True)
+            if body.comp or body.pre:      # an element that can raise: left to right, the first exception wins
+                tree = purify(wrap(body.pre, ("tail", body.term) if body.comp else ("ret", body.term)))
+                lam = f"(fun {pat} =>\n{show(tree, 8, True)})"
+                return V(it.pre, app("py_mapM", lam, it.term), L(body.ty), True, True)
+            qpat = "'" + pat if pat.startswith("(") else pat
+            return V(it.pre, app("map", f"(fun {qpat} => {body.term})", it.term), L(body.ty), False, True)
+        if isinstance(e, ast.DictComp):
+            if len(e.generators) != 1 or e.generators[0].ifs or e.generators[0].is_async:
+                fail(e, "comprehension")
+            g = e.generators[0]
+            it = self.iterable(fn, g.iter, env)
+            pat, env2 = self.bind_target(g.target, it.ty[1], env, fn)
+            k, v = self.expr(fn, e.key, env2), self.expr(fn, e.value, env2)
+            if k.comp or k.pre or v.comp or v.pre:
+                fail(e, "dict comprehension whose entries can raise")
+            return V(it.pre, app("map", f"(fun '{pat} => ({k.term}, {v.term}))" if pat.startswith("(") else
+                                 f"(fun {pat} => ({k.term}, {v.term}))", it.term), ("dictc", k.ty, v.ty), False, True)
         if isinstance(e, ast.Subscript):
             return self.subscript(fn, e, env)
         if isinstance(e, ast.Call):
@@ -733,6 +792,9 @@ class Translator:
             a = self.pure(fn, e.operand, env)
             if isinstance(e.op, ast.Not):
                 return V(a.pre, app("negb", self.truth(a, e.operand)), BOOL)
+            if isinstance(e.op, ast.USub) and a.ty == FLOAT and isinstance(e.operand, ast.Constant):
+                n, d = (-e.operand.value).as_integer_ratio()
+                return V(a.pre, f"(({n}) # {d})%Q", FLOAT)
             if isinstance(e.op, ast.USub) and a.ty == INT:
                 if isinstance(e.operand, ast.Constant):
                     return V(a.pre, zlit(-e.operand.value), INT)
@@ -790,6 +852,8 @@ class Translator:
 
     def truth(self, v, node):
         """bool(v) as a Coq bool term"""
+        if v.term is None:
+            fail(node, "internal: truth of an optional test")
         if v.ty == BOOL:
             return v.term
         if isinstance(v.ty, tuple) and v.ty[0] == "list":
@@ -843,6 +907,10 @@ class Translator:
             if i.ty != INT:
                 fail(e, "tuple index that is not an int")
             return V(pre, app("py_tuple2_get", b.term, i.term), b.ty[1], True)
+        if isinstance(b.ty, tuple) and b.ty[0] == "dictc":
+            if i.ty != b.ty[1]:
+                fail(e, "dict key of another type")
+            return V(pre, app("py_dict_get_last", eqb_term(b.ty[1]), b.term, i.term), b.ty[2], True)
         if isinstance(b.ty, tuple) and b.ty[0] == "dict":
             if i.ty != b.ty[1]:
                 fail(e, "dict key of another type")
@@ -860,6 +928,8 @@ class Translator:
             ta = a.term if a.ty == L(CHAR) else f"[{a.term}]"
             tb = b.term if b.ty == L(CHAR) else f"[{b.term}]"
             return V(pre, f"{opd(ta)} ++ {opd(tb)}", L(CHAR), False, True)
+        if isinstance(e.op, ast.Div) and a.ty == FLOAT and b.ty == INT:
+            return V(pre, app("py_fdiv_int", a.term, b.term), FLOAT, True)
         if isinstance(e.op, ast.Mult) and islist(a.ty) and b.ty == INT:
             return V(pre, app("py_list_repeat", a.term, b.term), a.ty, False, True)
         if a.ty == INT and b.ty == INT and isinstance(e.op, ast.FloorDiv) and isinstance(e.right, ast.Constant) \
@@ -921,6 +991,8 @@ class Translator:
                 return f"{opd(a.term)} {sym} {opd(b.term)}"
             if isinstance(op, ast.NotEq):
                 return app("negb", f"{opd(a.term)} =? {opd(b.term)}")
+        if a.ty == FLOAT and b.ty == FLOAT and isinstance(op, (ast.GtE, ast.LtE)):
+            return app("py_fge", a.term, b.term) if isinstance(op, ast.GtE) else app("py_fge", b.term, a.term)
         if a.ty == b.ty and a.ty in (COLOR, KIND, MTYPE, REASON) and isinstance(op, (ast.Eq, ast.NotEq)):
             t = app(EQB[a.ty], a.term, b.term)
             return t if isinstance(op, ast.Eq) else app("negb", t)
@@ -976,6 +1048,10 @@ class Translator:
                 fail(e, "range of non-int")
             pre = sum((v.pre for v in vs), [])
             return V(pre, app("py_range" if len(vs) == 1 else "py_range2", *[v.term for v in vs]), L(INT))
+        if isinstance(e, ast.Call) and isinstance(e.func, ast.Name) and e.func.id == "enumerate" \
+                and not env.has("enumerate") and len(e.args) == 1 and not e.keywords:
+            v = self.iterable(fn, e.args[0], env)
+            return V(v.pre, app("py_enumerate", v.term), L(T(INT, v.ty[1])), False, True)
         if isinstance(e, ast.Call) and isinstance(e.func, ast.Name) and e.func.id == "reversed" \
                 and not env.has("reversed") and len(e.args) == 1 and not e.keywords:
             v = self.pure(fn, e.args[0], env)
@@ -1032,6 +1108,18 @@ class Translator:
                 return V(a.pre, a.term, a.ty, False, True)
             if name in ("any", "all") and len(e.args) == 1:
                 return self.any_all(fn, e, env, name)
+            if name == "abs" and len(e.args) == 1 and not e.keywords:
+                a = self.pure(fn, e.args[0], env)
+                if a.ty == FLOAT:
+                    return V(a.pre, app("py_fabs", a.term), FLOAT)
+                if a.ty == INT:
+                    return V(a.pre, app("Z.abs", a.term), INT)
+                fail(e, f"abs of a {a.ty}")
+            if name in ("max", "min") and len(e.args) == 2 and not e.keywords:
+                a, b = self.pure(fn, e.args[0], env), self.pure(fn, e.args[1], env)
+                if a.ty != INT or b.ty != INT:
+                    fail(e, f"{name} of non-ints")
+                return V(a.pre + b.pre, app("Z." + name, a.term, b.term), INT)
             if name == "int" and len(e.args) == 1 and not e.keywords and isinstance(e.args[0], ast.BinOp) \
                     and isinstance(e.args[0].op, ast.Pow) and _src(e.args[0].right) in ("1 / 2", "0.5"):
                 a = self.pure(fn, e.args[0].left, env)      # int(n ** (1 / 2)): the float square root, truncated
@@ -1126,6 +1214,10 @@ class Translator:
             sm = self.str_method(fn, e, env)
             if sm is not None:
                 return sm
+            if self.oracle_mode:
+                o = self.oracle_call(fn, e, env)
+                if o is not None:
+                    return o
             if self.tensor_mode and f.attr in ("item", "numpy") and not e.args and not e.keywords:
                 # a 1-d integer tensor is the list of its entries: t[i].item() is the entry, t[i:].numpy() the slice
                 recv = self.pure(fn, f.value, env)
@@ -1143,6 +1235,28 @@ class Translator:
                 fail(e, "keyword arguments")
             return self.call_function(fn, q, [recv], e.args, env, e)
         fail(e, "call")
+
+    def oracle_call(self, fn, e, env):
+        """self_play.py: what is read off the engine, the probability tensor and the logits tensor"""
+        f = e.func
+        src = _src(e)
+        if f.attr == "item" and isinstance(f.value, ast.Call) and _src(f.value.func) == "torch.multinomial" \
+                and len(f.value.args) == 2 and _src(f.value.args[1]) == "1" and not f.value.keywords and not e.args:
+            p = self.pure(fn, f.value.args[0], env)      # torch.multinomial(probs, 1).item(): the sampler's answer
+            if p.ty != PROBS:
+                fail(e, "torch.multinomial of something that is not engine.tree_probs(tree)")
+            return V(p.pre, app("op_pick", p.term), INT)
+        recv = self.pure(fn, f.value, env)
+        if recv.ty == ENGINE and f.attr == "tree_probs" and len(e.args) == 1 and not e.keywords:
+            t = self.pure(fn, e.args[0], env)
+            if t.ty != TREE:
+                fail(e, "engine.tree_probs of something that is not a tree")
+            return V(recv.pre + t.pre, app("engine_tree_probs", t.term), PROBS)
+        if recv.ty == PROBS and f.attr == "numpy" and not e.args and not e.keywords:
+            return V(recv.pre, app("op_probs", recv.term), L(FLOAT))
+        if recv.ty == L(L(FLOAT)) and f.attr == "size" and len(e.args) == 1 and _src(e.args[0]) == "0":
+            return V(recv.pre, app("len", recv.term), INT)          # logits.size(0)
+        return None
 
     def as_str_tree(self, fn, node, env):
         """the argument of str.format as a computation of its str() (an int prints through py_str_int)"""
@@ -1314,7 +1428,7 @@ class Translator:
                     and not Translator.falls_through(s.orelse):
                 return False
             if isinstance(s, ast.Break):
-                fail(s, "break")
+                return False
         return True
 
     def assigned(self, stmts):
@@ -1335,14 +1449,24 @@ class Translator:
                 tgt(t.value)
             elif isinstance(t, ast.Subscript) and isinstance(t.value, ast.Name):
                 add(t.value.id)
+                add(self.cur_alias.get(t.value.id, t.value.id))
             elif isinstance(t, ast.Subscript) and isinstance(t.value, ast.Subscript) \
                     and isinstance(t.value.value, ast.Name):
                 add(t.value.value.id)
+            elif isinstance(t, ast.Attribute) and isinstance(t.value, ast.Name):
+                add(t.value.id)          # log.result = ..
             else:
                 fail(t, "assignment target")
 
         def walk(ss):
             for s in ss:
+                for c in ast.walk(s) if self.oracle_mode else []:
+                    if isinstance(c, ast.Call) and isinstance(c.func, ast.Attribute):
+                        if c.func.attr == "analyze" and isinstance(c.func.value, ast.Name):
+                            add(c.func.value.id)          # the oracle moves on
+                        if c.func.attr == "append" and isinstance(c.func.value, ast.Attribute) \
+                                and isinstance(c.func.value.value, ast.Name):
+                            add(c.func.value.value.id)    # log.positions.append(..)
                 if isinstance(s, ast.Assign):
                     for t in s.targets:
                         tgt(t)
@@ -1443,6 +1567,12 @@ class Translator:
             if ctx.get("continue") is None:
                 fail(s, "continue outside a loop")
             return ctx["continue"](env)
+        if isinstance(s, ast.Break):
+            if ctx.get("break") is None:
+                fail(s, "break outside a while loop")
+            return ctx["break"](env)
+        if self.oracle_mode and _src(s) in SKIPPED_STATEMENTS:
+            return cont(env)
         if isinstance(s, ast.Return):
             if fn.loop_depth:
                 fail(s, "return inside a loop")
@@ -1531,6 +1661,10 @@ class Translator:
             fail(node, f"{name} is rebound while delta refers to the list it named")
 
     def assign(self, fn, target, value, env, cont, node):
+        if self.oracle_mode:
+            r = self.oracle_assign(fn, target, value, env, cont, node)
+            if r is not None:
+                return r
         if isinstance(target, ast.Name):
             self.check_not_aliased(fn, target.id, node)
             if isinstance(value, ast.Dict) and target.id == "delta":
@@ -1651,6 +1785,69 @@ class Translator:
                 return wrap(i.pre + v.pre, ("bind", coq, app("py_setitem", coq, i.term, v.term), cont(env2)))
         fail(node, "assignment target")
 
+    def oracle_assign(self, fn, target, value, env, cont, node):
+        """self_play.py statement forms; None = not one of them"""
+        src = _src(value)
+        if isinstance(target, ast.Name) and isinstance(value, ast.Call) and isinstance(value.func, ast.Attribute) \
+                and value.func.attr == "analyze" and isinstance(value.func.value, ast.Name) \
+                and env.has(value.func.value.id) and env.get(value.func.value.id)[1] == ENGINE:
+            # tree = engine.analyze(position): the next answer of the oracle; the engine moves on
+            if len(value.args) != 1 or value.keywords:
+                fail(node, "engine.analyze(position) expected")
+            a = self.pure(fn, value.args[0], env)
+            if a.ty != POS:
+                fail(node, "engine.analyze of something that is not a position")
+            en = value.func.value.id
+            ec = env.get(en)[0]
+            tc = self.cname(target.id)
+            env2 = env.set(target.id, tc, TREE).set(en, ec, ENGINE)
+            return wrap(a.pre, ("bind", pattern([tc, ec]), app("engine_analyze", ec), cont(env2)))
+        if isinstance(target, ast.Name) and src == "Transcript()":
+            c = self.cname(target.id)
+            return ("let", c, "tr_new", cont(env.set(target.id, c, TRANSCRIPT, True)))
+        if isinstance(target, ast.Attribute) and isinstance(target.value, ast.Name) and env.has(target.value.id) \
+                and env.get(target.value.id)[1] == TRANSCRIPT and target.attr in TRANSCRIPT_SETTERS:
+            coq, ty, fresh = env.get(target.value.id)
+            if not fresh:
+                fail(node, "field assignment on a transcript this function did not create")
+            fty = ATTRS[(TRANSCRIPT, target.attr)][1]
+            v = self.pure(fn, value, env, fty)
+            unify(v.ty, fty, node)
+            return wrap(v.pre, ("let", coq, app(TRANSCRIPT_SETTERS[target.attr], coq, v.term), cont(env)))
+        if isinstance(target, ast.Name) and isinstance(value, ast.Call) and _src(value.func) == "torch.zeros" \
+                and len(value.args) == 1 and isinstance(value.args[0], ast.Tuple) and len(value.args[0].elts) == 2 \
+                and not value.keywords:
+            a, b = [self.pure(fn, x, env) for x in value.args[0].elts]
+            if a.ty != INT or b.ty != INT:
+                fail(node, "torch.zeros of non-int dimensions")
+            c = self.cname(target.id)
+            return wrap(a.pre + b.pre, ("bind", c, app("py_zeros2", a.term, b.term), cont(env.set(target.id, c, L(L(FLOAT)), True))))
+        if isinstance(target, ast.Name) and isinstance(value, ast.Call) and isinstance(value.func, ast.Attribute) \
+                and value.func.attr == "numpy" and isinstance(value.func.value, ast.Name) and not value.args \
+                and env.has(value.func.value.id) and env.get(value.func.value.id)[1] == L(L(FLOAT)):
+            # np_view = logits.numpy(): the SAME storage under another name
+            src_name = value.func.value.id
+            if not env.get(src_name)[2] or target.id in fn.name_alias or env.has(target.id):
+                fail(node, "numpy view of a tensor this function did not create")
+            fn.name_alias[target.id] = src_name
+            return cont(env)
+        if isinstance(target, ast.Subscript) and isinstance(target.value, ast.Name) and isinstance(target.slice, ast.Tuple) \
+                and len(target.slice.elts) == 2:
+            name = fn.name_alias.get(target.value.id, target.value.id)
+            if not env.has(name) or env.get(name)[1] != L(L(FLOAT)) or not env.get(name)[2]:
+                fail(node, "2-d item assignment into something that is not a tensor created here")
+            coq = env.get(name)[0]
+            i, j = [self.pure(fn, x, env) for x in target.slice.elts]
+            v = self.pure(fn, value, env, FLOAT)
+            if i.ty != INT or j.ty != INT or v.ty != FLOAT:
+                fail(node, "t[i, j] = v with other types")
+            row, row2 = fn.temp(), fn.temp()
+            pre = (v.pre if False else []) + i.pre + j.pre + v.pre + [
+                ("bind", row, app("py_getitem", coq, i.term)), ("bind", row2, app("py_setitem", row, j.term, v.term)),
+                ("bind", coq, app("py_setitem", coq, i.term, row2))]
+            return wrap(pre, cont(env))
+        return None
+
     def delta_literal(self, fn, target, value, env, cont):
         term = "delta_empty"
         pre = []
@@ -1670,6 +1867,17 @@ class Translator:
 
     def call_stmt(self, fn, c, env, cont):
         f = c.func
+        if self.oracle_mode and isinstance(f, ast.Attribute) and f.attr == "append" and isinstance(f.value, ast.Attribute) \
+                and isinstance(f.value.value, ast.Name) and env.has(f.value.value.id) \
+                and env.get(f.value.value.id)[1] == TRANSCRIPT and f.value.attr in TRANSCRIPT_SETTERS:
+            # log.positions.append(x): the list field of a transcript created here
+            coq, ty, fresh = env.get(f.value.value.id)
+            acc, fty = ATTRS[(TRANSCRIPT, f.value.attr)]
+            if not fresh or len(c.args) != 1 or c.keywords or fty[0] != "list":
+                fail(c, "append to a field of a transcript this function did not create")
+            v = self.pure(fn, c.args[0], env, fty[1])
+            unify(v.ty, fty[1], c)
+            return wrap(v.pre, ("let", coq, app(TRANSCRIPT_SETTERS[f.value.attr], coq, f"{app(acc, coq)} ++ [{v.term}]"), cont(env)))
         if isinstance(f, ast.Attribute) and f.attr == "append" and isinstance(f.value, ast.Name) and env.has(f.value.id) \
                 and isinstance(env.get(f.value.id)[1], tuple) and env.get(f.value.id)[1][0] == "opt":
             # x.append(v) where x may be None: AttributeError
@@ -1729,6 +1937,15 @@ class Translator:
             unify(x.ty[1], fn.ret_ty, s)
             v = fn.temp()
             return wrap(x.pre, ("matchopt", x.term, v, ("ret", v), cont(env)))
+        if isinstance(t, ast.Compare) and len(t.ops) == 1 and isinstance(t.ops[0], ast.Is) \
+                and isinstance(t.comparators[0], ast.Constant) and t.comparators[0].value is None and not s.orelse \
+                and isinstance(t.left, ast.Attribute) and not self.falls_through(s.body) and not fn.loop_depth:
+            # if E is None: <return / raise>   - afterwards E is known to hold a value
+            x = self.pure(fn, t.left, env)
+            if isinstance(x.ty, tuple) and x.ty[0] == "opt" and not x.pre:
+                v = fn.temp()
+                tb = self.block(fn, s.body, env, self.unreachable, ctx)
+                return ("matchopt", x.term, v, cont(env.narrowed(ast.dump(t.left), v, x.ty[1])), tb)
         env_a = env
         if isinstance(t, ast.Compare) and len(t.ops) == 1 and isinstance(t.ops[0], ast.IsNot) \
                 and isinstance(t.comparators[0], ast.Constant) and t.comparators[0].value is None \
@@ -1770,8 +1987,8 @@ class Translator:
             # both branches reach the rest: the variables they assign are returned as a tuple and rebound
             for x in s.body + s.orelse:
                 for n in ast.walk(x):
-                    if isinstance(n, (ast.Continue, ast.Return)):
-                        fail(n, "continue / return inside a branch that can also fall through")
+                    if isinstance(n, (ast.Continue, ast.Return, ast.Break)):
+                        fail(n, "continue / break / return inside a branch that can also fall through")
             both = self.definitely(s.body) & self.definitely(s.orelse)
             names = [n for n in self.assigned(s.body + s.orelse) if env.has(n) or n in both]
             if not names:
@@ -1854,7 +2071,10 @@ class Translator:
         fn.loop_depth += 1
         saved_bd, fn.branch_depth = fn.branch_depth, 0
         c = self.pure(fn, s.test, env)
-        body = self.block(fn, s.body, env, k, dict(ctx, **{"continue": k}))
+
+        def brk(e):
+            return ("ret", ("BREAK", e))
+        body = self.block(fn, s.body, env, k, dict(ctx, **{"continue": k, "break": brk}))
         fn.branch_depth = saved_bd
         fn.loop_depth -= 1
         env_after = env
@@ -1867,8 +2087,13 @@ class Translator:
 
         def call(e):
             return app(lname, *(["fuel'"] + [e.get(n)[0] for n in free] + [e.get(n)[0] for n in state]))
-        body = map_tree(body, lambda l: ("tailrec", call(l[1][1])) if l[0] == "tailrec" and isinstance(l[1], tuple) else l,
-                        rhs=True)
+        def leaf(l):
+            if l[0] == "tailrec" and isinstance(l[1], tuple):
+                return ("tailrec", call(l[1][1]))
+            if l[0] == "ret" and isinstance(l[1], tuple) and l[1][0] == "BREAK":
+                return ("ret", tuple_term([l[1][1].get(n)[0] for n in state]))
+            return l
+        body = map_tree(body, leaf, rhs=True)
         st_term = tuple_term([env.get(n)[0] for n in state])
         tree = purify(wrap(c.pre, ("if", self.truth(c, s.test), body, ("ret", st_term))))
         st_ty = coq_type(T(*[env.get(n)[1] for n in state]) if len(state) > 1 else env.get(state[0])[1], False)
@@ -1918,7 +2143,7 @@ class Translator:
         fn.loop_depth += 1
         saved_bd = fn.branch_depth
         fn.branch_depth = 0
-        body = self.block(fn, s.body, env_body, k, dict(ctx, **{"continue": k}))
+        body = self.block(fn, s.body, env_body, k, dict(ctx, **{"continue": k, "break": None}))
         fn.branch_depth = saved_bd
         fn.loop_depth -= 1
         # state types: what the body makes of them (an empty list gets its element type from the appends)
@@ -1971,6 +2196,7 @@ class Translator:
         fn = Fn(self, module, qual, coq)
         fn.ret_ty = ret
         fn.body = fd
+        self.cur_alias = fn.name_alias
         fn.locals = {n.id for n in ast.walk(fd) if isinstance(n, ast.Name)} | set(names)
         env = Env()
         params = []
@@ -2000,7 +2226,8 @@ class Translator:
         head = f"Definition {coq} {' '.join(params)} : {rty} :=" if params else f"Definition {coq} : {rty} :="
         text = f"(* {module}.py: {qual} *)\n" + "".join(a + "\n" for a in fn.aux) + head + "\n" + show(tree, 2, not is_pure) + "."
         self.out.append(text)
-        self.funcs[qual] = {"coq": coq, "params": ptys, "ret": ret, "pure": is_pure, "extra": extra, "module": module}
+        self.funcs[qual] = {"coq": coq, "params": ptys, "ret": ret, "pure": is_pure, "extra": extra, "module": module,
+                            "file": self.cur_file}
 
     def do_all_slides(self, module, qual, coq, ret):
         """the module-level statements that build ALL_SLIDES, as the body of a parameterless function"""
@@ -2085,7 +2312,7 @@ class Translator:
             fail(value, "dict constant")
         rty = coq_type(v.ty) if is_pure else f"res {coq_type(v.ty, False)}"
         self.out.append(f"(* {comment} *)\nDefinition {coq} : {rty} :=\n{show(tree, 2, not is_pure)}.")
-        self.consts[key] = {"coq": coq, "ty": v.ty, "pure": is_pure}
+        self.consts[key] = {"coq": coq, "ty": v.ty, "pure": is_pure, "file": self.cur_file}
         self.coq_names.add(coq)
 
     def do_class_consts(self, module, cls):
@@ -2160,30 +2387,32 @@ class Translator:
         self.out.append(f"(* {module}.py: {name} (a dict literal; looked up with py_dict_get, KeyError when absent) *)\n"
                         f"Definition {name} : list ({coq_type(kty, False)} * {coq_type(vty, False)}) :=\n  ["
                         + ";\n   ".join(items) + "].")
-        self.consts[name] = {"coq": name, "ty": ("dict", kty, vty), "pure": True}
+        self.consts[name] = {"coq": name, "ty": ("dict", kty, vty), "pure": True, "file": self.cur_file}
         self.coq_names.add(name)
 
-    def begin_output(self, prefix):
+    def begin_output(self, prefix, file=None):
         """start a further generated file: what was generated so far is referred to by qualified names"""
-        for info in self.funcs.values():
+        for info in list(self.funcs.values()) + list(self.consts.values()):
             if "." not in info["coq"]:
-                info["coq"] = prefix + info["coq"]
-        for c in self.consts.values():
-            if "." not in c["coq"]:
-                c["coq"] = prefix + c["coq"]
+                info["coq"] = info.get("file", "GameGen") + "." + info["coq"]
         if not self.prefix:
             self.prefix = prefix
         self.out = []
+        if file:
+            self.cur_file = file
 
     def run_encoding(self):
         """second output: tak/model/encoding.py `encode` (+ the Token vocabulary and TOP_PIECES) -> gen/EncodingGen.v"""
-        self.begin_output("GameGen.")
+        self.begin_output("GameGen.", "EncodingGen")
         m = "encoding"
         for name in ("MAX_RESERVES", "MAX_CAPSTONES"):
             self.do_const(m, name, name, self.module_assign(m, name), f"{m}.py: {name}")
         self.do_class_consts(m, "Token")
         self.do_dict_const(m, "TOP_PIECES", T(BOOL, KIND), INT)
-        self.coq_names |= {"encode", "decode"}
+        self.coq_names |= {"encode", "decode", "encode_move"}
+        for name in ("MOVES_BY_SIZE", "MOVES_TO_ID", "MAX_MOVE_ID"):
+            self.do_const(m, name, name, self.module_assign(m, name), f"{m}.py: {name}")
+        self.do_function(m, "encode_move", "encode_move", [INT, MOVE], INT, [])
         self.do_function(m, "encode", "encode", [POS, BOOL], L(INT), [])
         self.tensor_mode = True
         self.do_function(m, "decode", "decode", [L(INT)], POS, [])
@@ -2202,7 +2431,7 @@ class Translator:
 
     def run_tps(self):
         """third output: tak/ptn/tps.py -> gen/TpsGen.v.  A str is the list of its code points."""
-        self.begin_output("GameGen.")
+        self.begin_output("GameGen.", "TpsGen")
         m = "tps"
         self.str_codepoints = True
         self.illegal = "IllegalTPS"
@@ -2234,6 +2463,47 @@ class Translator:
             "From Coq Require Import ZArith String List Bool.\n"
             "From TV Require Import model.Tak model.Road model.PySem.\n"
             "From TV Require gen.GameGen.\n"
+            "Import ListNotations.\nOpen Scope Z_scope.\n")
+        return head + "\n" + "\n\n".join(self.out) + "\n"
+
+    def run_selfplay(self):
+        """fourth output: tak/self_play.py Transcript.results / Transcript.logits / play_one_game -> gen/SelfPlayGen.v;
+        needs run() and run_encoding() (encode_move, MAX_MOVE_ID) first"""
+        self.begin_output("GameGen.", "SelfPlayGen")
+        m = "self_play"
+        self.oracle_mode = True
+        cd = self.find_class(m, "Transcript")
+        got = [n.target.id for n in cd.body if isinstance(n, ast.AnnAssign)]
+        if got != ["positions", "moves", "probs", "values", "result", "stats"] or [_src(d) for d in cd.decorator_list] != ["define"]:
+            fail(cd, "Transcript: fields positions, moves, probs, values, result, stats expected")
+        for n in cd.body:
+            if isinstance(n, ast.AnnAssign) and n.target.id != "stats":
+                want = "None" if n.target.id == "result" else "field(factory=list)"
+                if _src(n.value) != want:
+                    fail(n, f"Transcript.{n.target.id}: default {want} expected")
+        cc = self.find_class(m, "SelfPlayConfig")
+        have = [n.target.id for n in cc.body if isinstance(n, ast.AnnAssign)]
+        if not {"size", "resignation_threshold", "ply_limit"} <= set(have):
+            fail(cc, "SelfPlayConfig: size, resignation_threshold, ply_limit expected")
+        # the loop runs at most ply_limit + 2 times (the ply grows by one per iteration, the limit test comes first);
+        # the annotation is not trusted: gen_play_one_game_eq shows OutOfFuel does not occur
+        self.while_fuel = {(m, "play_one_game", 1): "max(cfg.ply_limit + 2, 1)"}
+        self.coq_names |= {"results", "logits", "play_one_game"}
+        self.do_function(m, "Transcript.results", "results", [TRANSCRIPT], L(FLOAT), [])
+        self.do_function(m, "Transcript.logits", "logits", [TRANSCRIPT], L(L(FLOAT)), [])
+        self.do_function(m, "play_one_game", "play_one_game", [SPCFG, ENGINE], TRANSCRIPT, [])
+        self.oracle_mode = False
+        digest = hashlib.sha256(self.src[m].encode()).hexdigest()[:16]
+        head = (
+            "(* GENERATED by harness/py2coq.py from python/tak/self_play.py of the tree under test - do not edit.\n"
+            "   Transcript.results, Transcript.logits and play_one_game written against model/PySem.v and\n"
+            "   model/SelfPlaySem.v.  The engine is an ORACLE (a stream of `otree` answers, one per engine.analyze);\n"
+            "   floats are rationals; the `while True` loop runs on fuel max(ply_limit + 2, 1) (Crash OutOfFuel when it\n"
+            "   runs out); the hand-over of engine.stats is not translated.\n"
+            f"   sha256 of the source: {digest} *)\n"
+            "From Coq Require Import ZArith QArith Qabs String List Bool.\n"
+            "From TV Require Import model.Tak model.Road model.PySem model.SelfPlay model.SelfPlaySem.\n"
+            "From TV Require gen.GameGen gen.EncodingGen.\n"
             "Import ListNotations.\nOpen Scope Z_scope.\n")
         return head + "\n" + "\n\n".join(self.out) + "\n"
 
@@ -2281,7 +2551,7 @@ STUB = ("(* GENERATED by harness/py2coq.py: the translation FAILED, so the defin
 
 
 BASE_MODULES = ("pieces", "moves", "game")
-EXTRA_MODULES = {"encoding": "model/encoding.py", "tps": "ptn/tps.py"}
+EXTRA_MODULES = {"encoding": "model/encoding.py", "tps": "ptn/tps.py", "self_play": "self_play.py", "ptn": "ptn/ptn.py"}
 
 
 def read_sources(repo_python, extra=()):
@@ -2327,10 +2597,20 @@ def translate_tps(repo_python):
     return _guarded(f)
 
 
+def translate_selfplay(repo_python):
+    """gen/SelfPlayGen.v: (coq text, error or None)"""
+    def f():
+        t = Translator(read_sources(repo_python, extra=("encoding", "self_play")))
+        t.run()
+        t.run_encoding()
+        return t.run_selfplay()
+    return _guarded(f)
+
+
 def main():
     repo_python = sys.argv[1] if len(sys.argv) > 1 else "/repo/python"
     which = sys.argv[2] if len(sys.argv) > 2 else "game"
-    text, err = {"game": translate, "encoding": translate_encoding, "tps": translate_tps}[which](repo_python)
+    text, err = {"game": translate, "encoding": translate_encoding, "tps": translate_tps, "selfplay": translate_selfplay}[which](repo_python)
     sys.stdout.write(text)
     if err:
         sys.stderr.write("TRANSLATION FAILED: " + err + "\n")
